@@ -15,3 +15,4 @@ def c13_semistrat_zero_part(fam, case, verdict):
             (case is None or case.get("gkind") == "semistrat")
     return False
 
+
